@@ -55,7 +55,7 @@ func BarrierBeforeAppend(c *core.Ctx, s *Sender, rule string, strict bool) {
 		}
 		return false
 	}
-	flushed := cfgq.Or(IsCallTo(info, s.SendFunc), s.IsRecv)
+	flushed := cfgq.Or(s.IsFlushCall, s.IsRecv)
 	var tests []*cfg.Block // branches on the flush variable
 	for _, b := range s.G.CFG.Blocks {
 		if !b.Live || len(b.Succs) != 2 {
